@@ -192,8 +192,7 @@ mf_oid = z3.Function("cc_mf_oid", z3.IntSort(), z3.IntSort())  # identity of the
 def _constraint(it, i, x):
     """Meaning of one constraint, from the property: equality, or the predicate holds."""
     eqt = it._val_eq(val_of(i), x)
-    mf_eq = it._val_eq(Val.ref(mf_oid(i)), x)  # `V == x` is tried first even when V is a MatchFunction object
-    return z3.If(is_mf(i), z3.Or(mf_eq, it.truth_term(SVal(mf_app(mf_id(i), x)))), eqt)
+    return z3.If(is_mf(i), it.truth_term(SVal(mf_app(mf_id(i), x))), eqt)  # a constraint is an equality OR a predicate
 
 
 def _replay_cc(o):
@@ -278,7 +277,7 @@ def _cc_bounded(c, n_el, n_vals):
             pid = Val.opq(z3.IntVal(900 + i))
             fn = SummaryFn("matchfn", lambda it_, a, k, pid=pid: SVal(mf_app(pid, it_.to_val(a[0]))))
             v = mk_obj(it, S, "MatchFunction", fn=fn)
-            cons = lambda x, pid=pid, v=v: z3.Or(it._val_eq(it.to_val(v), x), it.truth_term(SVal(mf_app(pid, x))))
+            cons = lambda x, pid=pid, v=v: it.truth_term(SVal(mf_app(pid, x)))
         else:
             v = c.val(f"V{i}")
             c.assume(z3.Not(Val.is_ref(v.t)))
